@@ -15,9 +15,9 @@ TRACE = int(os.environ.get('MIRSYM_TRACE', '0'))
 
 
 class Fork(Exception):
-    def __init__(self, n, label=''):
+    def __init__(self, n, key=None):
         self.n = n
-        self.label = label
+        self.key = key
 
 
 class Infeasible(Exception):
@@ -184,8 +184,9 @@ class State:
         self.pc = []
         self.roots = {}
         self.symbols = {}       # path -> value created lazily (pre-state symbols)
-        self.choices = []
+        self.choices = {}      # keyed choices of the step being (re-)executed
         self.choice_pos = 0
+        self.label_seen = {}
         self.counter = 0
         self.notes = []         # (tag, payload) trail: models record events (file ops, io, ...)
         self.env = {}           # model-level state: files, clocks, ...
@@ -203,8 +204,9 @@ class State:
         r.pc = list(self.pc)
         r.roots = clone(self.roots, memo)
         r.symbols = clone(self.symbols, memo)
-        r.choices = list(self.choices)
+        r.choices = dict(self.choices)
         r.choice_pos = 0
+        r.label_seen = {}
         r.counter = self.counter
         r.notes = clone(self.notes, memo)
         r.env = clone(self.env, memo)
@@ -216,14 +218,19 @@ class State:
         return r
 
     # ---- choice / constraints
-    def choose(self, n, label=''):
+    def choose(self, n, label='', key=None):
+        """index in 0..n-1.  Choices are keyed (not positional): a step is re-executed after a fork, and on the
+        re-run an earlier choice may already be persisted in the state (forced shape, assumed constraint) and not
+        be asked again - positional replay would then hand its value to the wrong question."""
         if n == 1:
             return 0
-        if self.choice_pos < len(self.choices):
-            r = self.choices[self.choice_pos]
-            self.choice_pos += 1
-            return r
-        raise Fork(n, label)
+        if key is None:
+            k = self.label_seen.get(label, 0)
+            self.label_seen[label] = k + 1
+            key = ('lbl', label, k)
+        if key in self.choices:
+            return self.choices[key]
+        raise Fork(n, key)
 
     def assume(self, c):
         c = z3.simplify(c) if not isinstance(c, bool) else z3.BoolVal(c)
@@ -257,16 +264,14 @@ class State:
             return True
         if z3.is_false(cond):
             return False
-        key = ('br', self.choice_pos, cond.get_id())
         t = self.feasible(cond)
-        f = self.feasible(z3.Not(cond))
-        if t and not f:
-            return True
-        if f and not t:
+        if not t:
+            # the path condition itself is satisfiable (invariant of the exploration), so the other side is
             return False
-        if not t and not f:
-            raise Infeasible()
-        i = self.choose(2, label)
+        f = self.feasible(z3.Not(cond))
+        if not f:
+            return True
+        i = self.choose(2, label, key=('br', cond.get_id()))
         if i == 0:
             self.assume(cond)
             return True
@@ -281,14 +286,14 @@ class State:
         cands = [c for c in range(lo, hi + 1) if self.feasible(e == c)]
         if not cands:
             raise Infeasible()
-        i = self.choose(len(cands), label)
+        i = self.choose(len(cands), label, key=('conc', e.get_id()))
         self.assume(e == cands[i])
         return cands[i]
 
     def choose_len(self, obj):
         mx = obj.maxlen if obj.maxlen is not None else self.maxlen_default
         mn = getattr(obj, 'minlen', 0) or 0
-        n = mn + self.choose(mx - mn + 1, f'len {obj.lazy}')
+        n = mn + self.choose(mx - mn + 1, f'len {obj.lazy}', key=('len', obj.lazy))
         self.notes.append(('shape', obj.lazy, n))
         return n
 
@@ -555,9 +560,10 @@ class Executor:
                 results.append(PathResult('unroll', st, msg='max_steps'))
                 return
             st.choice_pos = 0
+            st.label_seen = {}
             try:
                 self.step(st)
-                st.choices = []
+                st.choices = {}
                 st.steps += 1
                 self.stats['steps'] += 1
             except Fork as fk:
@@ -566,7 +572,8 @@ class Executor:
                 src = getattr(fk, 'base', st)
                 for i in reversed(range(fk.n)):
                     s2 = src.clone()
-                    s2.choices = base + [i]
+                    s2.choices = dict(base)
+                    s2.choices[fk.key] = i
                     work.append(s2)
                 return
             except Infeasible:
@@ -602,7 +609,7 @@ class Executor:
         fr = st.frames[-1]
         if isinstance(fr, NativeFrame):
             snap = st.clone()
-            snap.choices = list(st.choices)
+            snap.choices = dict(st.choices)
             rv = fr.pending
             fr.pending = START
             try:
@@ -820,6 +827,7 @@ class Executor:
             n = 0
             while sub.frames:
                 sub.choice_pos = 0
+                sub.label_seen = {}
                 self.step(sub)
                 n += 1
                 if n > 5000:
@@ -1158,7 +1166,7 @@ class Executor:
         feas = [(c, bb) for c, bb in alts if st.feasible(c)]
         if not feas:
             raise Infeasible()
-        i = st.choose(len(feas), 'switch')
+        i = st.choose(len(feas), 'switch', key=('sw',) + tuple(c.get_id() for c, _ in feas))
         st.assume(feas[i][0])
         return self.goto(st, fr, feas[i][1])
 
